@@ -6,6 +6,9 @@ CONSTANTS
   Inf = 99
   MaxFail = 0
   MaxHist = TRUE
+  StopRule = "none"
+  Amount = 0
+  CheckFirst = FALSE
   JIT = TRUE
 INVARIANT EmitHist
 CHECK_DEADLOCK FALSE
